@@ -11,6 +11,8 @@ import Mistletoe.Props.C09
 import Mistletoe.Props.C19
 import Mistletoe.Props.C10_Reflow
 import Mistletoe.Props.C06
+import Mistletoe.Props.C12_Shape
+import Driver.Ast
 open Lean Mistletoe
 
 /-- op "c14.hyps": {"lines": [String]} → the hypotheses of `C14_prose_text` evaluated on these lines -/
@@ -117,6 +119,12 @@ def c06Spec (j : Json) : Except String Json := do
   pure (Json.mkObj [("plain", Json.bool (Spec.Emphasis.plain s)), ("stdWs", Json.bool (EmphRefine.stdWs s)),
     ("spans", Json.arr (spans.map (fun (a, b, c, d, st) => Json.arr #[Driver.nat a, Driver.nat b, Driver.nat c, Driver.nat d, Json.bool st])).toArray)])
 
+/-- op "c12.shape": {"doc": exported token tree} → `Doc.shapeOk`, the conclusion of `C12_parsed_shape`, evaluated on a REAL
+    token tree as exported by harness/export.py -/
+def c12Shape (j : Json) : Except String Json := do
+  let d ← Driver.Ast.docOf (← j.getObjVal? "doc")
+  pure (Json.mkObj [("shapeOk", Json.bool d.shapeOk)])
+
 def dispatch (op : String) (j : Json) : Except String Json :=
   match op with
   | "c14.hyps" => c14Hyps j
@@ -125,6 +133,7 @@ def dispatch (op : String) (j : Json) : Except String Json :=
   | "c19.outline" => c19Outline j
   | "c10.reflow" => c10Reflow j
   | "c06.spec" => c06Spec j
+  | "c12.shape" => c12Shape j
   | "ping" => pure (Json.str "pong")
   | _ => throw s!"unknown op {op}"
 
